@@ -2,15 +2,16 @@
 from propcommon import COMMON_MODELLED
 PROP = dict(
         gotest="TestC05",
-        translator="arithC05",
-        extra_props=["ArithTieC05"],
+        translator=["arithC05", "arithC03b"],
+        extra_props=["ArithTieC05", "ArithTieC03b"],
         extra_gotests=[("TestZdec", "Zdec")],
         model="coq/Models/AmmJoinExit.v (exact over Z: MaximalExactRatioJoin/CalcJoinPoolNoSwapShares/JoinPool all-asset incl. the sdk.Coins "
               "semantics for user-supplied coins, GetMaximalNoSwapLPAmount, CalcExitPool pro-rata + processExitPool, keeper.ExitPool guards, "
-              "Pool.TVL, oracle single-sided join/exit kernels with the weight-breaking fee taken from the implementation, "
+              "Pool.TVL, oracle single-sided join/exit kernels; coq/Models/WeightFee.v + WeightFeeJoinExit.v: the whole oracle branch of JoinPool / CalcExitPool with the "
+              "weight-breaking fee and the weightBalanceBonus COMPUTED from reserves, accounted balances, oracle prices, weights and the amm params, "
               "single-asset weighted join around Pow)",
         coq_deps=["Base/", "Models/AmmJoinExit.v", "Proofs/AmmJoinExitProofs.v", "Run/AmmJoinExitRun.v", "Models/AmmSwap.v", "Proofs/AmmSwapProofs.v",
-                  "Proofs/AmmSwapProofs2.v", "Proofs/PowBounds.v", "Proofs/PowSeries.v", "Proofs/PowJoin.v", "Props/C05.v", "Generated/ArithC05.v", "Proofs/ArithTieTac.v", "Proofs/ArithTieC05.v", "Props/ArithTieC05.v"],
+                  "Proofs/AmmSwapProofs2.v", "Proofs/PowBounds.v", "Proofs/PowSeries.v", "Proofs/PowJoin.v", "Models/WeightFee.v", "Models/WeightFeeJoinExit.v", "Proofs/WeightFeeProofs.v", "Proofs/WeightFeeJoinExitProofs.v", "Props/C05.v", "Generated/ArithC05.v", "Proofs/ArithTieTac.v", "Proofs/ArithTieC05.v", "Props/ArithTieC05.v", "Generated/ArithC03b.v", "Proofs/ArithTieC03b.v", "Props/ArithTieC03b.v"],
         rule="pure cases: types.Pool values with 2-4 assets, reserves 1..1e30 per decade (also 0, 1, 2..9), supplies 1..1e6 and 1e18..1e30, "
              "deposits as a fraction of the pool +-1 / relative to the reserve (1, 0.1%, 1/3, 1/2, all-1, all, all+1, 2-10x, 10^-k) / per decade, "
              "requested shares 0, -5, 1, S/1e18, relative, up to 900 x supply, exiting shares 0, negative, relative, >= supply; ~6% malformed coin "
@@ -21,8 +22,12 @@ PROP = dict(
         trusted_base=["tools/gotrans arith (Go AST + go/types -> Gallina over Base/Zdec.v): the method table of coq/Generated/ARITH_README.md; ties the per-coin / per-asset kernels of "
                       "MaximalExactRatioJoin, CalcExitPool (pro-rata and oracle branch), CalcExitValueWithoutSlippage, CalcJoinValueWithoutSlippage and the shares of the oracle JoinPool "
                       "to the model; the loops over coins / assets, the sdk.Coins operations, the single-asset weighted join, and what TVL / GetTotalShares / "
-                      "AmountOfNoDenomValidation / GetWeightBreakingFee return, are covered by the correspondence run only",
-                      "the weight-breaking fee and Pow are inputs resolved from the implementation (GetWeightBreakingFee, Pow are not modelled)",
+                      "AmountOfNoDenomValidation return, are covered by the correspondence run only (GetWeightBreakingFee: tied as a whole by ArithTieC03b)",
+                      "MOVED from 'taken from the implementation' to 'modelled exactly': the weight-breaking fee / bonus of the oracle single-sided join and exit "
+                      "(constructors COJoinW / COExitW of Run/AmmJoinExitRun.v: shares / amount, reserves, supply AND bonus must agree with JoinPool / CalcExitPool + "
+                      "ExitPool, Pow panics inside GetWeightBreakingFee included; Props/ArithTieC03b.v ties GetWeightBreakingFee, the join / exit bonus decision and "
+                      "the fee applied to numSharesDec). Pow of the single-asset WEIGHTED join (CSingle) is still an input. Application histories do not replay "
+                      "oracle single-sided joins / exits through the model (implementation-side predicates only)",
                       "|Int| < 2^256 range panics are not modelled (overflowing generated cases are skipped and counted)",
                       "pools with a zero reserve are outside the model of GetMaximalNoSwapLPAmount (unreachable: UpdatePoolAssetBalance rejects them)"],
         modelled="x/amm join/exit share and amount arithmetic as Gallina functions over Z; " + COMMON_MODELLED,
@@ -32,7 +37,7 @@ PROP = dict(
                    "monotone over EVERY history of well-formed joins/exits (induction over the op list); oracle kernels within one share unit / one base "
                    "unit. The model is evaluated by Coq's VM on every input the real functions were called with and must return the same integers "
                    "and result kind. Two claims are REFUTED on the code as it is (duplicate-denom MaxAmountsIn; single-sided oracle exit of the whole reserve).",
-        level_note="Trusted: Coq kernel+VM; the Go harness; weight-breaking fee / Pow taken from the implementation; single-asset weighted join only "
+        level_note="Trusted: Coq kernel+VM; the Go harness; weight-breaking fee MODELLED (C05_oracle_*_with_fee); Pow of the single-asset weighted join taken from the implementation; single-asset weighted join only "
                    "_partial (needs a bound on Pow).",
         assumptions=["C05_join_user_coins_le_deposit covers EVERY user-supplied token list the join accepts (since fix: 383287d a repeated denom is refused); "
                      "the pre-fix code is refuted (C05_join_duplicate_denom_prefix_refuted)",
